@@ -24,7 +24,8 @@ template <typename IntegralN, typename IntegralK>
 static constexpr auto div_ceil(const IntegralN& n,
                                const IntegralK& k) -> decltype(n + k)
 {
-    return (n + k - 1) / k;
+    // written without n + k - 1, which overflows for n near the type maximum
+    return n / k + (n % k > 0);
 }
 
 //! \}
